@@ -309,8 +309,11 @@ impl Context {
             let mut parent = task.parent();
             while let Some(p) = parent {
                 if p.is_kind(NodeKind::Step) || p.is_kind(NodeKind::Act) {
-                    p.set_state(TaskState::Backed);
-                    self.emit_task(&p)?;
+                    // a step that has already ended (over this act) keeps its state
+                    if !p.state().is_completed() {
+                        p.set_state(TaskState::Backed);
+                        self.emit_task(&p)?;
+                    }
                     break;
                 }
                 parent = p.parent();
